@@ -17,12 +17,12 @@ HEADLINE = ['motors', 'evaluations', 'region_dead_zone', 'region_boundary_ulp', 
 
 
 def floors(tier):
-    return {'evaluations': 50000, 'region_dead_zone': 3000, 'region_boundary_ulp': 3000, 'region_normal_pos': 10000, 'region_normal_neg': 10000,
+    return {'evaluations': 50000, 'region_dead_zone': 3000, 'region_boundary_ulp': 3000, 'region_normal_pos': 8000, 'region_normal_neg': 8000,
             'region_beyond_no_load': 3000, 'region_no_current_data': 2000, 'antisymmetry_pairs': 20000, 'continuity_checks': 500, 'derived_facts': 1000}
 
 
 def n_cases(tier):
-    return 1600 if tier == 'quick' else 60000
+    return 800 if tier == 'quick' else 20000
 
 
 def make_motor(spec):
